@@ -16,6 +16,7 @@ Code points, glyph ids and indices are `Nat`; signed deltas are `Int`.  A Rust p
 `assert!`, `unwrap` of a failed conversion) is the outcome `trap`.
 -/
 import FontVerif.Model.Base
+import FontVerif.Model.Layout
 namespace FontVerif.Cmap
 open FontVerif
 
@@ -571,25 +572,47 @@ inductive MapVariant where
   | variant : Nat → MapVariant
 deriving Repr, DecidableEq
 
-/-- `Cmap14::map_variant`.  The three `binary_search_by` calls are modelled by a first-match
-search, which agrees with any binary search on the strictly ascending / non-overlapping arrays the
-format requires (see `props/C08.json` assumptions). -/
-def mapVariant (t : List VarSel) (codepoint selector : Nat) : Option MapVariant :=
-  match t.find? (fun r => r.selector == selector) with
+/-- comparison closure of the default-UVS range search:
+`if codepoint < start { Greater } else if codepoint > start + additional_count { Less } else { Equal }` -/
+def uvsRangeCmp (r : Nat × Nat) (codepoint : Nat) : Ordering :=
+  if codepoint < r.1 then .gt else if codepoint > r.1 + r.2 then .lt else .eq
+
+/-- "If a default UVS table is present in this selector record, binary search on the ranges" -/
+def foundDefaultUvs (rec : VarSel) (codepoint : Nat) : Bool :=
+  match rec.defaults with
+  | some ranges =>
+    (match Layout.binarySearchBy ranges.length
+        (fun i => uvsRangeCmp (ranges[i]?.getD (0, 0)) codepoint) with
+     | .ok _ => true
+     | .err _ => false)
+  | none => false
+
+/-- "Binary search the non-default UVS table if present" -/
+def lookupNonDefaultUvs (rec : VarSel) (codepoint : Nat) : Option MapVariant :=
+  match rec.nonDefaults with
   | none => none
-  | some rec =>
-    let foundDefault :=
-      match rec.defaults with
-      | some ranges => ranges.any (fun r => r.1 ≤ codepoint ∧ codepoint ≤ r.1 + r.2)
-      | none => false
-    if foundDefault then some .useDefault
-    else
-      match rec.nonDefaults with
+  | some maps =>
+    match Layout.binarySearchBy maps.length
+        (fun i => Layout.natCmp (maps[i]?.getD (0, 0)).1 codepoint) with
+    | .err _ => none
+    | .ok ix =>
+      match maps[ix]? with
       | none => none
-      | some maps =>
-        match maps.find? (fun p => p.1 == codepoint) with
-        | none => none
-        | some p => some (.variant p.2)
+      | some p => some (.variant p.2)
+
+/-- `Cmap14::map_variant`.  The three `binary_search_by` calls use the transcription of core's
+algorithm in Model/Layout.lean (`Layout.binarySearchBy`), so the model also says what the reader
+answers on unsorted / overlapping (malformed) arrays. -/
+def mapVariant (t : List VarSel) (codepoint selector : Nat) : Option MapVariant :=
+  match Layout.binarySearchBy t.length
+      (fun i => Layout.natCmp ((t[i]?.getD ⟨0, none, none⟩).selector) selector) with
+  | .err _ => none
+  | .ok idx =>
+    match t[idx]? with
+    | none => none
+    | some rec =>
+      if foundDefaultUvs rec codepoint then some .useDefault
+      else lookupNonDefaultUvs rec codepoint
 
 /-- `Cmap14Iter`: per selector, all default code points then all non-default mappings -/
 def iter14 (t : List VarSel) : List (Nat × Nat × MapVariant) :=
